@@ -113,4 +113,24 @@ theorem C14_side_needed :
     ¬ Inv c (addblock c 0 false (fun _ => 1000) 7).1 := by
   simp only []; unfold Bitrate.Inv; decide
 
+/-- the budgets the manager enforces are the configured rates rounded to whole bits per half short block: each is within half a bit
+    of the exact value (this rounding is the drift recorded as known finding F9) -/
+theorem C14_budget_quantisation (num den : Int) (hd : 0 < den) :
+    2 * (rintDiv num den * den - num) ≤ den ∧ -den ≤ 2 * (rintDiv num den * den - num) := by
+  unfold rintDiv
+  have h1 := Int.emod_add_mul_ediv num den
+  have h2 := Int.emod_nonneg num (Int.ne_of_gt hd)
+  have h3 := Int.emod_lt_of_pos num hd
+  have e : num / den * den = den * (num / den) := Int.mul_comm _ _
+  simp only []
+  split
+  · rw [e]; omega
+  · split
+    · rw [Int.add_mul, e]; omega
+    · split
+      · rw [e]; omega
+      · rw [Int.add_mul, e]; omega
+
+example : rintDiv (128000 * 128) 44100 = 372 ∧ rintDiv 5 2 = 2 ∧ rintDiv 7 2 = 4 ∧ rintDiv 1 3 = 0 := by decide
+
 end Vorbis.Props.C14
